@@ -7,6 +7,7 @@ pub mod alloc;
 pub mod boxgen;
 pub mod cpu;
 pub mod panicmon;
+pub mod hostile;
 pub mod layoutx;
 pub mod model;
 pub mod muxdrive;
